@@ -74,10 +74,16 @@ pub fn check(c: &Phys, ctx: &mut Ctx) -> Result<(), Failure> {
     phys::validate(c)?;
     with_d!(c.g.d, check_d(c, ctx))
 }
+pub fn gen_case_large(t: &mut Tape, tier: Tier) -> Option<Phys> {
+    gen::gen_phys_large(t, tier.pick(4, 6), &gen::MODERATE)
+}
 pub fn run(tier: Tier, seed: u64) -> i32 {
     let t0 = Instant::now();
     let sp = Spec { id: "C08", rule: RULE, tape_len: 280, cases: tier.pick(100_000, 1_000_000), gen: gen_case, check, max_shrink_iters: 3000, shards: 16 };
     let mut stats = engine::run_spec(&sp, tier, seed);
+    // rare class with its own budget: 13/14-edge graphs (2^13 / 2^14 table entries, > 12 edges)
+    let spl = Spec { id: "C08", rule: RULE, tape_len: 520, cases: tier.pick(128, 1_600), gen: gen_case_large, check, max_shrink_iters: 40, shards: 16 };
+    stats.merge(engine::run_spec(&spl, tier, seed ^ 0x1a26e));
     engine::run_regressions::<Phys>("C08", check, &mut stats);
     engine::finish("C08", tier, seed, RULE, stats, t0, serde_json::json!({}), &["Feynman parameters are read from the crate's debug log (checked against the sector formula by C07)", "exact rational determinant / brute-force spanning trees as oracle", "tolerance 1000*eps*kappa(L), kappa computed exactly"])
 }
